@@ -35,11 +35,40 @@ fn fd_index(raw: i32) -> Option<usize> {
     FDS.with(|f| f.iter().position(|y| ino(y.as_raw_fd()) == x))
 }
 
+/// hex token; segments separated by '.', a segment `HEX*N` stands for N copies (long hostile inputs stay short lines)
 fn hexs(t: &str) -> Option<Vec<u8>> {
-    if t == "-" { Some(vec![]) } else { hcommon::unhex(t) }
+    if t == "-" {
+        return Some(vec![]);
+    }
+    let mut out = vec![];
+    for seg in t.split('.') {
+        match seg.split_once('*') {
+            Some((h, n)) => {
+                let b = hcommon::unhex(h)?;
+                let n: usize = n.parse().ok()?;
+                for _ in 0..n {
+                    out.extend_from_slice(&b);
+                }
+            }
+            None => out.extend(hcommon::unhex(seg)?),
+        }
+    }
+    Some(out)
 }
 fn hext(b: &[u8]) -> String {
     if b.is_empty() { "-".into() } else { hcommon::hex(b) }
+}
+/// encoded bytes as printed by `ser`: in full up to 1024 bytes, otherwise length, Adler-32, first 16 and last 48 bytes
+fn obs_bytes(b: &[u8]) -> String {
+    if b.len() <= 1024 {
+        return hext(b);
+    }
+    let (mut a, mut c) = (1u32, 0u32);
+    for x in b {
+        a = (a + *x as u32) % 65521;
+        c = (c + a) % 65521;
+    }
+    format!("#{}.{}.{}.{}", b.len(), c * 65536 + a, hcommon::hex(&b[..16]), hcommon::hex(&b[b.len() - 48..]))
 }
 fn sig_of(t: &str) -> Option<Signature> {
     if t == "-" { Some(Signature::Unit) } else { Signature::try_from(t).ok() }
@@ -223,7 +252,7 @@ fn ctxt(e: &str, pos: usize) -> Context {
 
 fn ser_obs(r: zvariant::Result<Data<'static, 'static>>, z: zvariant::Result<zvariant::serialized::Size>) -> String {
     match (r, z) {
-        (Ok(d), Ok(z)) => format!("OK:{}:{}:{}:{}", hext(d.bytes()), z.size(), d.fds().len(), z.num_fds()),
+        (Ok(d), Ok(z)) => format!("OK:{}:{}:{}:{}", obs_bytes(d.bytes()), z.size(), d.fds().len(), z.num_fds()),
         (Err(e), _) => err_tok(&e),
         (_, Err(e)) => err_tok(&e),
     }
